@@ -142,6 +142,9 @@ pub fn one_scenario(rep: &Report, idx: usize, sc: &Scenario, release: bool, keep
         cc::prepare_output(&b, sc);
         let o = cc::run_clone(&dir, &b, sc, "clone", &Faults { release, ..Default::default() });
         rep.eval();
+        if o.idle_hang {
+            return Err("the in-place clone did not end: stopped by the watchdog having used hardly any CPU (idle, not slow)".into());
+        }
         if o.exit == Exit::Timeout {
             rep.inconclusive("watchdog");
             return Ok(());
